@@ -1,100 +1,48 @@
+// vh-tree: tree engine (C03 versioned IAVL tree, C05 existence / absence proofs).
+//
+//	vh-tree replay-tree  -in behaviours -nk N [-variants imm,lazy] [-cache 100]
+//	vh-tree trace-tree   -out trace.ndjson -n TRACES -steps K -minkeys 64 -maxkeys 512 -dump 50
+//	vh-tree replay-proof -in behaviours -nk N [-known class,class,...]
+//	vh-tree trace-proof  -out trace.ndjson -n TRACES -steps K -minkeys 16 -maxkeys 96 [-pool mixed|flat]
 package main
 
 import (
+	"flag"
 	"fmt"
 	"os"
-
-	"github.com/pokt-network/pocket-core/codec"
-	ctypes "github.com/pokt-network/pocket-core/codec/types"
-	"github.com/pokt-network/pocket-core/store/iavl"
-	"github.com/pokt-network/pocket-core/store/rootmulti"
-	"github.com/pokt-network/pocket-core/store/types"
-	abci "github.com/tendermint/tendermint/abci/types"
-	"github.com/tendermint/tendermint/crypto/merkle"
-	"github.com/tendermint/tendermint/crypto/tmhash"
-	dbm "github.com/tendermint/tm-db"
 )
 
-var cdc = codec.NewCodec(ctypes.NewInterfaceRegistry())
-
 func main() {
-	db := dbm.NewMemDB()
-	ms := rootmulti.NewStore(db, false, 1000)
-	k1 := types.NewKVStoreKey("s1")
-	k2 := types.NewKVStoreKey("s2")
-	ms.MountStoreWithDB(k1, types.StoreTypeIAVL, nil)
-	ms.MountStoreWithDB(k2, types.StoreTypeIAVL, nil)
-	if err := ms.LoadLatestVersion(); err != nil {
-		panic(err)
+	if len(os.Args) < 2 {
+		fmt.Fprintln(os.Stderr, "usage: vh-tree <replay-tree|trace-tree|replay-proof|trace-proof> ...")
+		os.Exit(2)
 	}
-	st := ms.GetCommitKVStore(k1)
-	for _, k := range []string{"a", "b", "c", "d", "e"} {
-		st.Set([]byte(k), []byte("v"+k))
+	cmd := os.Args[1]
+	fs := flag.NewFlagSet(cmd, flag.ExitOnError)
+	in := fs.String("in", "", "behaviour file")
+	out := fs.String("out", "", "trace output file")
+	nk := fs.Int("nk", 4, "number of keys of the specification instance")
+	variants := fs.String("variants", "imm,lazy", "comma separated variants")
+	cache := fs.Int("cache", 100, "IAVL node cache size")
+	n := fs.Int("n", 10, "number of traces")
+	steps := fs.Int("steps", 400, "steps per trace")
+	minKeys := fs.Int("minkeys", 64, "smallest key universe of a trace")
+	maxKeys := fs.Int("maxkeys", 512, "largest key universe of a trace")
+	dump := fs.Int("dump", 50, "full dump every k steps")
+	known := fs.String("known", "", "mutation classes listed as known findings (counted, not reported as mismatches)")
+	pool := fs.String("pool", "mixed", "trace-proof key universes: mixed (arbitrary byte strings) or flat (no key extends another)")
+	_ = fs.Parse(os.Args[2:])
+	switch cmd {
+	case "replay-tree":
+		replayTree(*in, *nk, *variants, *cache)
+	case "trace-tree":
+		traceTree(*out, *n, *steps, *minKeys, *maxKeys, *dump)
+	case "replay-proof":
+		replayProof(*in, *nk, *known)
+	case "trace-proof":
+		traceProof(*out, *n, *steps, *minKeys, *maxKeys, *pool, *known)
+	default:
+		fmt.Fprintln(os.Stderr, "unknown command", cmd)
+		os.Exit(2)
 	}
-	ms.GetCommitKVStore(k2).Set([]byte("x"), []byte("y"))
-	cid := ms.Commit()
-	fmt.Printf("cid %d %X\n", cid.Version, cid.Hash)
-	prt := rootmulti.DefaultProofRuntime()
-	q := func(k string) abci.ResponseQuery {
-		return ms.Query(abci.RequestQuery{Path: "/s1/key", Data: []byte(k), Prove: true, Height: 1})
-	}
-	res := q("b")
-	fmt.Println("value", string(res.Value), "ops", len(res.Proof.Ops), res.Proof.Ops[0].Type, res.Proof.Ops[1].Type)
-	fmt.Println("verify b:", prt.VerifyValue(res.Proof, cid.Hash, "/s1/b", []byte("vb")))
-	var vop iavl.ValueOp
-	if err := cdc.LegacyUnmarshalBinaryLengthPrefixed(res.Proof.Ops[0].Data, &vop); err != nil {
-		panic(err)
-	}
-	fmt.Println(vop.Proof.String())
-	// attack 1: set Right on a Left-bearing node (single-field mutation)
-	for i := range vop.Proof.LeftPath {
-		if len(vop.Proof.LeftPath[i].Left) > 0 {
-			p2 := *vop.Proof
-			p2.LeftPath = append(iavl.PathToLeaf{}, vop.Proof.LeftPath...)
-			p2.LeftPath[i].Right = []byte("junkjunkjunkjunkjunkjunkjunkjunk")
-			op := iavl.NewValueOp([]byte("b"), &iavl.RangeProof{LeftPath: p2.LeftPath, InnerNodes: p2.InnerNodes, Leaves: p2.Leaves}).ProofOp()
-			pr := &merkle.Proof{Ops: []merkle.ProofOp{op, res.Proof.Ops[1]}}
-			fmt.Println("mutated Right on node", i, "verify:", prt.VerifyValue(pr, cid.Hash, "/s1/b", []byte("vb")))
-			// forgery: add a leaf "bb" -> "FORGED"
-			forged := iavl.ProofLeafNode{Key: []byte("bb"), ValueHash: tmhash.Sum([]byte("FORGED")), Version: 1}
-			p3 := &iavl.RangeProof{LeftPath: append(iavl.PathToLeaf{}, vop.Proof.LeftPath...), InnerNodes: []iavl.PathToLeaf{{}}, Leaves: []iavl.ProofLeafNode{vop.Proof.Leaves[0], forged}}
-			p3.LeftPath[i].Right = forged.Hash()
-			op3 := iavl.NewValueOp([]byte("bb"), p3).ProofOp()
-			pr3 := &merkle.Proof{Ops: []merkle.ProofOp{op3, res.Proof.Ops[1]}}
-			fmt.Println("FORGED existence of bb at node", i, "verify:", prt.VerifyValue(pr3, cid.Hash, "/s1/bb", []byte("FORGED")))
-			break
-		}
-	}
-	// attack 2: absence proof skipping a present key
-	resA := q("bb") // absent between b and c
-	var aop iavl.AbsenceOp
-	if err := cdc.LegacyUnmarshalBinaryLengthPrefixed(resA.Proof.Ops[0].Data, &aop); err != nil {
-		panic(err)
-	}
-	fmt.Println("absence bb honest:", prt.VerifyAbsence(resA.Proof, cid.Hash, "/s1/bb"))
-	fmt.Println(aop.Proof.String())
-	// same-length absent key: "b1" is not... use tree2 with 2-byte keys
-	st2 := ms.GetCommitKVStore(k2)
-	for _, k := range []string{"k1", "k3", "k5", "k7", "k9"} {
-		st2.Set([]byte(k), []byte("v"+k))
-	}
-	cid2 := ms.Commit()
-	q2 := func(k string) abci.ResponseQuery {
-		return ms.Query(abci.RequestQuery{Path: "/s2/key", Data: []byte(k), Prove: true, Height: 2})
-	}
-	r4 := q2("k4")
-	fmt.Println("absence k4 honest:", prt.VerifyAbsence(r4.Proof, cid2.Hash, "/s2/k4"))
-	var a4 iavl.AbsenceOp
-	cdc.LegacyUnmarshalBinaryLengthPrefixed(r4.Proof.Ops[0].Data, &a4)
-	fmt.Println(a4.Proof.String())
-	// try to prove absence of k5 (present) : take proof of existence for each key & range proofs
-	s2 := ms.GetCommitStore(k2).(*iavl.Store)
-	_ = s2
-	for _, k := range []string{"k1", "k3", "k5", "k7", "k9", "x"} {
-		r := q2(k)
-		var v iavl.ValueOp
-		cdc.LegacyUnmarshalBinaryLengthPrefixed(r.Proof.Ops[0].Data, &v)
-		fmt.Println("KEY", k, v.Proof.String())
-	}
-	os.Exit(0)
 }
